@@ -341,10 +341,17 @@ func extractOption(nodes map[string]*chanCall, opts ...Option) (map[string][]any
 				}
 			}
 		}
+		designated := make(map[string]struct{}, len(opt.paths))
 		for _, path := range opt.paths {
 			if len(path.path) == 0 {
 				return nil, fmt.Errorf("call option has designated an empty path")
 			}
+			// a path designated twice addresses its node once
+			pathID := fmt.Sprintf("%q", path.path)
+			if _, dup := designated[pathID]; dup {
+				continue
+			}
+			designated[pathID] = struct{}{}
 
 			var curNode *chanCall
 			var ok bool
